@@ -183,6 +183,11 @@ Theorem written_ignores_display_options : forall c name value f,
 Proof. exact written_ignores_lemma. Qed.
 Print Assumptions written_ignores_display_options.
 
+Theorem written_default_exact : forall f,
+  written_proto gcfg0 f = f /\ written_raw gcfg0 f = f /\ written_download f = f.
+Proof. exact written_default_exact_lemma. Qed.
+Print Assumptions written_default_exact.
+
 (* -- the model compares sample keys as tuples, the Go code as varint byte strings: the byte
    encoding (compared with the real sampleKey byte for byte on every run) is injective on keys whose
    ids are non-zero uint64, numeric values int64 and lengths < 2^64 -- *)
